@@ -25,6 +25,8 @@ def gen_cases(seed, tier, n):
         c = tracegen.gen_case(seed, i, tracegen.PROFILES[profs[i % len(profs)]])
         rng = random.Random(seed * 7919 + i)
         c["params"] = {"include_last": rng.random() < 0.5}
+        if i % 7 == 3:
+            tracegen.make_superset_rank(c, rng, fresh_ids=True)     # a later rank whose vocabulary is the union of all ranks' 
         if i % 9 == 7:
             # step numbers that do not grow with time (a counter reset: #8, #9, #3): "the last step" is the one that starts last
             for rk in c["ranks"].values():
